@@ -31,18 +31,21 @@ const (
 	clPruneCrash        // crash image after EVERY commit, same inputs at the restart
 	clPruneCrashChanged // crash image after every commit, inputs changed before the restart
 	clPruneCommitErr    // a commit returns an error
+	clReadErr           // real migrators: ONE transient read error during a start (readerr.go)
 	nClasses
 )
 
 var className = [...]string{"real/cancel", "real/crash", "real/commit-error", "toy", "toy/nil-ctxerr", "downgrade/opted-in-unapplied",
-	"prune/cancel", "prune/crash", "prune/crash-changed-inputs", "prune/commit-error"}
+	"prune/cancel", "prune/crash", "prune/crash-changed-inputs", "prune/commit-error", "real/read-error"}
 
 // C18 is one simulated run.
 func C18(c *sim.Ctx) {
 	t := c.T
 	// weights: 0 must be the simplest class
 	cls := [...]int{clCancel, clCrash, clCancel, clCrash, clCommitErr, clToy, clToy, clToyNilCtx, clBeyond, clCrash,
-		clPruneCancel, clPruneCrash, clPruneCrashChanged, clPruneCommitErr, clPruneCancel, clPruneCrash}[t.Draw("class", 16)]
+		clPruneCancel, clPruneCrash, clPruneCrashChanged, clPruneCommitErr, clPruneCancel, clPruneCrash,
+		// appended (recorded tape words are normalised to the bound, so older replay files keep their class)
+		clReadErr, clReadErr}[t.Draw("class", 18)]
 	if only := c.Knobs["only"]; only != "" { // developer aid: JSIM_KNOB_only=<class name prefix>
 		var sel []int
 		for i, n := range className {
@@ -57,7 +60,7 @@ func C18(c *sim.Ctx) {
 	e := &env{c: c, s: &sched{}}
 	c.Logf("class %s gomaxprocs=%d", className[cls], runtime.GOMAXPROCS(0))
 	switch cls {
-	case clCancel, clCrash, clCommitErr:
+	case clCancel, clCrash, clCommitErr, clReadErr:
 		runReal(e, cls)
 	case clToy, clToyNilCtx:
 		runToy(e, cls == clToyNilCtx)
@@ -188,19 +191,18 @@ func runReal(e *env, cls int) {
 	}
 
 	// 1. the uninterrupted run (also the source of crash images)
-	type image struct {
-		k    int
-		info opInfo
-		img  *memory.Database
-		mig  int
-	}
+	type image = crashImage
 	var images []image
 	refImg := w.base.Copy()
 	in := inject{schedSeed: rc.seed, logOps: true, tag: "ref"}
-	if cls == clCrash {
+	if cls == clCrash || cls == clReadErr {
 		in.images = func(k int, info opInfo, _ int, img *memory.Database) {
 			images = append(images, image{k: k, info: info, img: img})
 		}
+	}
+	refAfter := map[int]*memory.Database{} // read-error class: the database right after migration i was recorded as applied
+	if cls == clReadErr {
+		in.onApplied = func(bit int, img *memory.Database) { refAfter[bit] = img.Copy() }
 	}
 	refBin := rc.binary(rc.fF)
 	res := e.start(refImg, refBin, in)
@@ -274,6 +276,9 @@ func runReal(e *env, cls int) {
 			rc.finish(img, rc.fF, inject{schedSeed: mix(rc.seed, 77, uint64(k)), tag: "retry"}, fmt.Sprintf("commit error at commit %d (%s), then restart", k, r.failInfo), "commit_error")
 		}
 		c.Nontrivial = len(ks) >= 3 && nTx > 0
+	case clReadErr:
+		sort.Slice(images, func(i, j int) bool { return images[i].k < images[j].k })
+		rc.readErrClass(res, images, refAfter, nTx)
 	}
 	rc.downgrades(refImg, rc.fF, "completed database", false)
 }
@@ -380,6 +385,14 @@ func (rc *realCase) checkFinal(img *memory.Database, f flags, what, kind string,
 	}
 }
 
+// crashImage is the database right after commit k of a start.
+type crashImage struct {
+	k    int
+	info opInfo
+	img  *memory.Database
+	mig  int
+}
+
 // finish: fault-free starts of the binary with flags f until the upgrade completes; then the final
 // checks. A healthy database needs exactly one start.
 func (rc *realCase) finish(img *memory.Database, f flags, in inject, what, kind string) *startRes {
@@ -387,6 +400,12 @@ func (rc *realCase) finish(img *memory.Database, f flags, in inject, what, kind 
 	b := rc.binary(f)
 	r := rc.e.start(img, b, in)
 	c.Evals++
+	return rc.judgeHealthy(r, b, img, f, what, kind)
+}
+
+// judgeHealthy: the oracle of a start that suffered no fault.
+func (rc *realCase) judgeHealthy(r *startRes, b binary, img *memory.Database, f flags, what, kind string) *startRes {
+	c := rc.e.c
 	if r.capped {
 		c.Inconclusive++
 		c.Logf("%s: step cap", what)
